@@ -1,0 +1,25 @@
+//go:build verif
+
+package mavl
+
+// Verification hooks (build tag "verif" only; nothing changes without the tag).
+// The pruning machinery keeps process-wide state (quit, pruningState, maxBlockHeight, secLvlPruningH, the
+// background goroutine's WaitGroup) that a test harness driving several databases in one process must be able
+// to join and reset; ClosePrune sets quit = true for good and is the only exported way to wait.
+
+// VerifWaitPrune blocks until the background pruning goroutine started by Tree.Save (if any) has finished.
+func VerifWaitPrune() {
+	wg.Wait()
+}
+
+// VerifResetGlobals puts the package-level state back to what a fresh process has.
+func VerifResetGlobals() {
+	wg.Wait()
+	quit = false
+	setPruning(pruningStateEnd)
+	heightMtx.Lock()
+	maxBlockHeight = 0
+	heightMtx.Unlock()
+	secLvlPruningH = 0
+	ReleaseGlobalMem()
+}
